@@ -37,6 +37,9 @@ def c_dev10n(run):
     r20_shapes.check_slot_completeness(run, run.prog.analysed_functions())
     for f in run.prog.analysed_functions():
         if f.module.short not in ('base/animate', 'timing', 'stdlib/collections', 'base/graphics'):
+            r7_binary.check_duplicates(run, f)
+    for f in run.prog.analysed_functions():
+        if f.module.short not in ('base/animate', 'timing', 'stdlib/collections', 'base/graphics'):
             r10_args.check_option_used(run, f)
     run.explanation = 'development run of R10n over the whole package'
 
@@ -218,6 +221,7 @@ def c09(run):
     prog = run.prog
     r7_binary.run_r7(run, helpers=True, dunders=False)
     r8_accessors.run_r8(run)
+    r8_accessors.check_accessor_slots(run)
     # the multi-valued inverse is the single-valued inverse of every element (per-element route, or the structured inverse written
     # on the stacked array)
     r16_tables.check_routes(run, [r for r in r16_tables.ROUTES_C02 if r[0] in ('pose3d:SE3.inv', 'pose2d:SE2.inv', 'pose3d:SO3.inv', 'pose2d:SO2.inv')], rule='R8')
@@ -740,7 +744,8 @@ def c12(run):
                        '(l.r r.r, l.r r.d + l.d r.r) with non-commutative operand order, its 8x8 matrix is [[R,0],[D,R]], conj/vec/'
                        'norm have their forms; the class operators route to these functions; the quaternion logarithm depends on the sign '
                        'of the scalar part (R17: a logarithm computed from |v| and |q| alone cannot be inverted by exp). The universally quantified identities '
-                       '(associativity, norm multiplicativity, exp/log) and vvmul are not decided.')
+                       '(associativity, norm multiplicativity, exp/log) are not decided; vvmul equals a x b + s_a b + s_b a with the scalar parts '
+                       'recomputed as sqrt(1 - |.|^2), UnitQuaternion.vec3/qvmul/dot/dotb route to q2v/vvmul/dot/dotb with the operands in order.')
     run.trust(*STATIC_TRUST)
 
 
